@@ -272,8 +272,8 @@ func (w *verifWorld) observePubs(expectNew bool) {
 	if verifrt.Symbolic() {
 		return
 	}
-	deadline := time.Now().Add(1500 * time.Millisecond)
-	for {
+	// (bounded by a count of sleeps, not by time.Now: a replay may run on the model's clock)
+	for tries := 0; ; tries++ {
 		found := false
 		for i, d := range w.dests {
 			topics, bodies := d.srv.log()
@@ -289,7 +289,7 @@ func (w *verifWorld) observePubs(expectNew bool) {
 				found = true
 			}
 		}
-		if found || !expectNew || time.Now().After(deadline) {
+		if found || !expectNew || tries >= 1500 {
 			return
 		}
 		time.Sleep(time.Millisecond)
@@ -318,7 +318,7 @@ func (w *verifWorld) settle() {
 		verifrt.Join()
 		return
 	}
-	deadline := time.Now().Add(1500 * time.Millisecond)
+	deadline := verifWallClock().Add(1500 * time.Millisecond)
 	for {
 		w.lock()
 		pending := false
@@ -336,7 +336,7 @@ func (w *verifWorld) settle() {
 			time.Sleep(20 * time.Millisecond)
 			return
 		}
-		if time.Now().After(deadline) {
+		if verifWallClock().After(deadline) {
 			return
 		}
 		time.Sleep(time.Millisecond)
@@ -644,3 +644,7 @@ func VerifC20_NsqToNsqAnswerRacesHandler() {
 	verifrt.Reach("answered-inside-the-handler-finished", nFin == n)
 	verifrt.Reach("answered-inside-the-handler-requeued", nReq == n)
 }
+
+// verifWallClock: the real clock for the native harness's own waiting (the replay overlay rewrites
+// every literal time.Now() call of the package - harness files included - to the model clock).
+var verifWallClock = time.Now
